@@ -27,12 +27,15 @@ ASSUME = ['memory model (DESIGN 3.3): all atomics of the protocol are SeqCst exc
 
 def run(ctx):
     ctx.trusted_base, ctx.assumptions = TB, ASSUME
-    if not ctx.harness(['ls_iter', 'sh_probe']):
+    if not ctx.harness(['ls_iter', 'p_closeafter', 'sh_probe']):
         return
     ctx.translate(COMPONENTS)
     ctx.prove('props/C11.v')
     L.lockstep(ctx, [L.mon_c11], ['c11'])
     async_probe(ctx)
+    # "once close has been called ..." holds in every history of the instance, also after additions that were refused
+    import c12
+    c12.close_after_rejection(ctx)
     ctx.coverage['rule'] = ('scenarios {wait | Forever::next | poll_signal with a recording non-blocking callback} x {close(), two close(), delivery + close()}: every split point '
                             'of each activity against the others (consumer: every step around call boundaries and scan ends), random 2-preemption and random run-length schedules; '
                             'distinct_nontrivial = distinct implementation traces in which at least two activities interleave; monitors on the real traces: every PollResult with the '
